@@ -127,7 +127,7 @@ func cmdCheck(args []string) int {
 		selected = append(selected, ct)
 		pkgSet[ct.Pkg] = true
 	}
-	if len(selected) == 0 && *prop != "C01" && *prop != "C03" {
+	if len(selected) == 0 && *prop != "C01" && *prop != "C03" && *prop != "C18" {
 		fmt.Printf("no contracts serve property %q\n", *prop)
 		return 2
 	}
@@ -215,6 +215,15 @@ func cmdCheck(args []string) int {
 			obls = append(obls, o)
 		}
 		fnNames = append(fnNames, trNames...)
+	}
+	if *prop == "C18" || *prop == "" {
+		for _, d := range v.genesisObligations() {
+			o := &Obligation{Name: d.Name, Kind: "frame.genesis", Tags: d.Tags, Src: "every store prefix the module writes is exported and re-imported: " + d.Detail, Goal: "true", Static: "proved", StaticDetail: d.Detail}
+			if !d.OK {
+				o.Static = "failed"
+			}
+			obls = append(obls, o)
+		}
 	}
 	tGen := time.Since(t0).Seconds() - tLoad
 	dir := *keep
